@@ -12,4 +12,32 @@ PROPS = {
         outside=["nesting depth > 2", "more than 5 top-level operations", "callbacks that panic (no unwinding in Kani)",
                  "embedded storage: release is a no-op in release builds, so exactly-one-release is only observable for boxed (CBMC double-free / use-after-free) and pooled (pool.len()==0) storage"],
     ),
+    "C01": dict(
+        kani_suites=["infinity_pool"],
+        assumptions=[
+            "release-profile semantics (debug-assertions off; debug_assert paths outside the claim)",
+            "capacity override hook H1 is the only behavioural difference (slab capacity 1..3 instead of >=32)",
+            "pool-glue harnesses: Slab::{new,insert_with_unchecked,remove,drop} replaced by contract models that assert their own preconditions; the contracts are what the slab-level harnesses establish for the real Slab",
+            "Vec::resize / Vec::reserve replaced by semantically equal models that only perform concrete-sized allocations (std Vec is trusted; its symbolic-size realloc path exhausts CBMC)",
+            "vacancy index: shrink only over vacant (empty) slabs - the pool-glue harness shows shrink_to_fit only drops empty slabs",
+            "Kani's MIR->goto translation, CBMC 6.11 and CaDiCaL are trusted; unwinding assertions are on",
+        ],
+        outside=["the six wrapper pools (Local*/thread-safe/Pinned/Blind over the raw pool): their minimal shape exhausts 20-28 GB (DESIGN.md P22)",
+                 "real slabs inside a pool beyond one slab (direct pool shapes with two slabs exhaust 12 GB): covered compositionally (slab contract + glue)",
+                 "slab capacities > 3 in executed slab harnesses (layout arithmetic covers every capacity)", "more than 4 slabs in a pool summary; vacancy index beyond 192 slabs",
+                 "panicking initialisers / destructors (no unwinding in Kani)", "trait-object casts and blind-pool BTreeMap routing (only the layout key is decided)"],
+    ),
+    "C02": dict(
+        kani_suites=["infinity_pool"],
+        assumptions=[
+            "release-profile semantics (debug-assertions off)",
+            "capacity override hook H1 is the only behavioural difference",
+            "catch_unwind = call the closure, resume_unwind = panic!() wherever a Slab is dropped (Kani has no unwinding)",
+            "pool-glue harnesses use slab contract models (see C01)",
+            "Kani's MIR->goto translation, CBMC 6.11 and CaDiCaL are trusted; unwinding assertions are on",
+        ],
+        outside=["reference-counted handles of the wrapper pools (Arc/Rc removers): wrapper pools do not fit (P22)",
+                 "pool histories longer than one operation from an arbitrary summary are covered inductively, not executed",
+                 "panicking destructors"],
+    ),
 }
